@@ -335,3 +335,4 @@ def run(ck, F):
         ck.run_rule(r)
     import c19
     ck.run_rule(c19.r19_5)
+    ck.run_rule(c19.r19_5b)
